@@ -441,13 +441,14 @@ func (p *Parser) infix(maxPriority Integer) (operator, error) {
 		return operator{}, errNoOp
 	}
 
-	if op := p.operators[a][operatorClassInfix]; op != (operator{}) {
+	// The priority of the resulting term is the priority of the operator. It has to fit in the context, too.
+	if op := p.operators[a][operatorClassInfix]; op != (operator{}) && op.priority <= maxPriority {
 		l, _ := op.bindingPriorities()
 		if l <= maxPriority {
 			return op, nil
 		}
 	}
-	if op := p.operators[a][operatorClassPostfix]; op != (operator{}) {
+	if op := p.operators[a][operatorClassPostfix]; op != (operator{}) && op.priority <= maxPriority {
 		l, _ := op.bindingPriorities()
 		if l <= maxPriority {
 			return op, nil
